@@ -1,1 +1,440 @@
-// harnesses: table
+// harnesses over /repo/src/table.rs  (C11-H2/H3, C12, C13-H2)
+//
+// The table is built directly (push of ClaimEntry / insert of CacheValue): one real operation per harness from an
+// arbitrary small pre-state. `std::collections::HashMap` is the association-list shim (vstd), the clock is the repo's
+// MockTimeSource. Owners come from a two-peer universe {P, Q}.
+use crate::util::MockTimeSource;
+use ::std::net::{Ipv4Addr, SocketAddrV4};
+
+type Tab = ClaimTable<MockTimeSource>;
+
+fn peer(q: bool) -> SocketAddr {
+    if q {
+        SocketAddr::V4(SocketAddrV4::new(Ipv4Addr::new(10, 0, 0, 2), 2002))
+    } else {
+        SocketAddr::V4(SocketAddrV4::new(Ipv4Addr::new(10, 0, 0, 1), 1001))
+    }
+}
+
+fn addr(bytes: &[u8; 16], len: u8) -> Address {
+    let mut d = [0u8; 16];
+    let mut i = 0;
+    while i < len as usize {
+        d[i] = bytes[i];
+        i += 1;
+    }
+    Address { data: d, len }
+}
+
+fn any_now() -> Time {
+    let now: Time = kani::any();
+    kani::assume(now >= 1 && now < (1 << 40));
+    MockTimeSource::set_time(now);
+    now
+}
+
+fn any_expiry(now: Time) -> Time {
+    let t: Time = kani::any();
+    kani::assume(t >= now && t < (1 << 41));
+    t
+}
+
+// ===================================================================================================== C11-H2
+/// lookup without a cached decision = owner of the matching claim with the greatest prefix length (first such in
+/// announcement order), None iff no claim matches; the decision is cached until min(now + switch timeout, claim expiry)
+fn lookup_longest_prefix(k: usize, alen: u8) {
+    let now = any_now();
+    let cache_timeout: u32 = kani::any();
+    let claim_timeout: u32 = kani::any();
+    let bases: [[u8; 16]; 3] = kani::any();
+    let prefixes: [u8; 3] = kani::any();
+    let owners: [bool; 3] = kani::any();
+    let dest: [u8; 16] = kani::any();
+    let mut exp = [0 as Time; 3];
+    let mut t = Tab::new(cache_timeout, claim_timeout);
+    let mut i = 0;
+    while i < k {
+        exp[i] = any_expiry(now);
+        t.claims.push(ClaimEntry {
+            peer: peer(owners[i]),
+            claim: Range { base: addr(&bases[i], alen), prefix_len: prefixes[i] },
+            timeout: exp[i],
+        });
+        i += 1;
+    }
+    let d = addr(&dest, alen);
+    let got = t.lookup(d);
+    // reference: scan with the separately decided Range::matches (C11-H1)
+    let mut best: Option<usize> = None;
+    let mut bestp: i32 = -1;
+    let mut i = 0;
+    while i < k {
+        let r = Range { base: addr(&bases[i], alen), prefix_len: prefixes[i] };
+        if r.matches(d) && (prefixes[i] as i32) > bestp {
+            best = Some(i);
+            bestp = prefixes[i] as i32;
+        }
+        i += 1;
+    }
+    match best {
+        None => {
+            assert!(got.is_none());
+            assert!(t.cache.items.len() == 0);
+        }
+        Some(b) => {
+            assert!(got == Some(peer(owners[b])));
+            assert!(t.cache.items.len() == 1);
+            assert!(t.cache.items[0].0 == d);
+            assert!(t.cache.items[0].1.peer == peer(owners[b]));
+            let lim = now + cache_timeout as Time;
+            assert!(t.cache.items[0].1.timeout == if lim < exp[b] { lim } else { exp[b] });
+        }
+    }
+    // the claims themselves are not touched by a lookup
+    assert!(t.claims.len() == k);
+    vcover!(best.is_some() && k >= 2 && best != Some(0), "later_more_specific_claim_wins");
+    vcover!(best.is_none(), "no_claim_matches");
+    witness!();
+}
+macro_rules! lookup_inst {
+    ($($name:ident = ($k:expr, $alen:expr)),*) => {$(
+        #[cfg_attr(kani, kani::proof, kani::unwind(20))]
+        pub fn $name() {
+            lookup_longest_prefix($k, $alen)
+        }
+    )*};
+}
+lookup_inst!(
+    c11_lookup_k0_len4 = (0, 4), c11_lookup_k1_len4 = (1, 4), c11_lookup_k2_len1 = (2, 1), c11_lookup_k2_len4 = (2, 4),
+    c11_lookup_k2_len6 = (2, 6), c11_lookup_k2_len16 = (2, 16), c11_lookup_k3_len1 = (3, 1), c11_lookup_k3_len4 = (3, 4),
+    c11_lookup_k3_len8 = (3, 8)
+);
+
+/// a cached decision is returned as is (the cache is consulted before the claims) and is not refreshed by the lookup
+#[cfg_attr(kani, kani::proof, kani::unwind(20))]
+pub fn c11_lookup_prefers_cache() {
+    let now = any_now();
+    let cache_timeout: u32 = kani::any();
+    let key: [u8; 16] = kani::any();
+    let other: [u8; 16] = kani::any();
+    let cached_owner: bool = kani::any();
+    let claim_owner: bool = kani::any();
+    let prefix: u8 = kani::any();
+    let ct = any_expiry(now);
+    let et = any_expiry(now);
+    let mut t = Tab::new(cache_timeout, 300);
+    let d = addr(&key, 4);
+    t.cache.items.push((d, CacheValue { peer: peer(cached_owner), timeout: ct }));
+    t.claims.push(ClaimEntry { peer: peer(claim_owner), claim: Range { base: addr(&other, 4), prefix_len: prefix }, timeout: et });
+    let got = t.lookup(d);
+    assert!(got == Some(peer(cached_owner)));
+    assert!(t.cache.items.len() == 1 && t.cache.items[0].1.timeout == ct);
+    witness!();
+}
+
+// ===================================================================================================== C11-H3 / C12-H3
+/// the sweep keeps exactly the entries (claims and cached decisions) whose expiry is not in the past; afterwards a
+/// swept decision is never returned
+#[cfg_attr(kani, kani::proof, kani::unwind(20))]
+pub fn c11_sweep_removes_exactly_expired() {
+    let now = any_now();
+    let keys: [[u8; 16]; 2] = kani::any();
+    let cexp: [Time; 2] = kani::any();
+    let eexp: [Time; 2] = kani::any();
+    let owners: [bool; 4] = kani::any();
+    let mut t = Tab::new(10, 300);
+    let k0 = addr(&keys[0], 6);
+    let k1 = addr(&keys[1], 6);
+    kani::assume(k0 != k1);
+    t.cache.items.push((k0, CacheValue { peer: peer(owners[0]), timeout: cexp[0] }));
+    t.cache.items.push((k1, CacheValue { peer: peer(owners[1]), timeout: cexp[1] }));
+    // claims that can never match a 6-byte destination (length 4): the lookups below only see the cache
+    t.claims.push(ClaimEntry { peer: peer(owners[2]), claim: Range { base: addr(&keys[0], 4), prefix_len: 0 }, timeout: eexp[0] });
+    t.claims.push(ClaimEntry { peer: peer(owners[3]), claim: Range { base: addr(&keys[1], 4), prefix_len: 0 }, timeout: eexp[1] });
+    t.housekeep();
+    let keep_c0 = cexp[0] >= now;
+    let keep_c1 = cexp[1] >= now;
+    let keep_e0 = eexp[0] >= now;
+    let keep_e1 = eexp[1] >= now;
+    assert!(t.cache.items.len() == keep_c0 as usize + keep_c1 as usize);
+    assert!(t.claims.len() == keep_e0 as usize + keep_e1 as usize);
+    if keep_c0 {
+        assert!(t.cache.items[0].0 == k0 && t.cache.items[0].1.peer == peer(owners[0]) && t.cache.items[0].1.timeout == cexp[0]);
+    }
+    if keep_c1 {
+        let i = keep_c0 as usize;
+        assert!(t.cache.items[i].0 == k1 && t.cache.items[i].1.peer == peer(owners[1]) && t.cache.items[i].1.timeout == cexp[1]);
+    }
+    if keep_e0 {
+        assert!(t.claims[0].timeout == eexp[0] && t.claims[0].peer == peer(owners[2]));
+    }
+    if keep_e1 {
+        let i = keep_e0 as usize;
+        assert!(t.claims[i].timeout == eexp[1] && t.claims[i].peer == peer(owners[3]));
+    }
+    vcover!(keep_c0 && !keep_c1 && !keep_e0 && keep_e1, "mixed");
+    witness!();
+}
+
+/// after the sweep a decision whose expiry has passed is never returned by lookup (and one that has not, still is)
+#[cfg_attr(kani, kani::proof, kani::unwind(20))]
+pub fn c11_swept_decision_is_not_reused() {
+    let now = any_now();
+    let key: [u8; 16] = kani::any();
+    let owner: bool = kani::any();
+    let cexp: Time = kani::any();
+    let mut t = Tab::new(10, 300);
+    let k0 = addr(&key, 6);
+    t.cache.items.push((k0, CacheValue { peer: peer(owner), timeout: cexp }));
+    t.housekeep();
+    let got = t.lookup(k0);
+    assert!(got == if cexp >= now { Some(peer(owner)) } else { None });
+    witness!();
+}
+
+// ===================================================================================================== C13-H2
+/// learning: cache(addr, peer) makes that peer the only next hop for addr until now + switch timeout (last writer wins)
+#[cfg_attr(kani, kani::proof, kani::unwind(20))]
+pub fn c13_learn_last_writer_wins() {
+    let now = any_now();
+    let switch_timeout: u32 = kani::any();
+    let key: [u8; 16] = kani::any();
+    let first: bool = kani::any();
+    let second: bool = kani::any();
+    let later: Time = kani::any();
+    kani::assume(later >= now && later < (1 << 40));
+    let mut t = Tab::new(switch_timeout, 300);
+    let a = addr(&key, 8);
+    t.cache(a, peer(first));
+    assert!(t.cache.items.len() == 1 && t.cache.items[0].1.timeout == now + switch_timeout as Time);
+    MockTimeSource::set_time(later);
+    t.cache(a, peer(second));
+    assert!(t.cache.items.len() == 1);
+    assert!(t.cache.items[0].1.peer == peer(second));
+    assert!(t.cache.items[0].1.timeout == later + switch_timeout as Time);
+    assert!(t.lookup(a) == Some(peer(second)));
+    witness!();
+}
+
+/// a learned entry of a disconnected peer is gone after remove_claims; entries of other peers stay (C12-H2, C13-H2)
+fn remove_claims_step(k: usize) {
+    let now = any_now();
+    let keys: [[u8; 16]; 2] = kani::any();
+    let cown: [bool; 2] = kani::any();
+    let bases: [u8; 3] = kani::any();
+    let prefixes: [u8; 3] = kani::any();
+    let owners: [bool; 3] = kani::any();
+    let gone: bool = kani::any();
+    let mut t = Tab::new(10, 300);
+    let k0 = addr(&keys[0], 6);
+    let k1 = addr(&keys[1], 6);
+    kani::assume(k0 != k1);
+    let c0 = any_expiry(now);
+    let c1 = any_expiry(now);
+    t.cache.items.push((k0, CacheValue { peer: peer(cown[0]), timeout: c0 }));
+    t.cache.items.push((k1, CacheValue { peer: peer(cown[1]), timeout: c1 }));
+    let mut exp = [0 as Time; 3];
+    let mut i = 0;
+    while i < k {
+        exp[i] = any_expiry(now);
+        let mut b = [0u8; 16];
+        b[0] = bases[i];
+        t.claims.push(ClaimEntry { peer: peer(owners[i]), claim: Range { base: addr(&b, 1), prefix_len: prefixes[i] }, timeout: exp[i] });
+        i += 1;
+    }
+    t.remove_claims(peer(gone));
+    // nothing names the removed peer any more
+    let mut i = 0;
+    while i < t.claims.len() {
+        assert!(t.claims[i].peer != peer(gone));
+        i += 1;
+    }
+    let mut i = 0;
+    while i < t.cache.items.len() {
+        assert!(t.cache.items[i].1.peer != peer(gone));
+        i += 1;
+    }
+    // everything of the other peer is still there, unchanged and in order
+    let mut others = 0;
+    let mut i = 0;
+    while i < k {
+        if owners[i] != gone {
+            assert!(t.claims[others].peer == peer(!gone) && t.claims[others].timeout == exp[i]);
+            assert!(t.claims[others].claim.prefix_len == prefixes[i] && t.claims[others].claim.base.data[0] == bases[i]);
+            others += 1;
+        }
+        i += 1;
+    }
+    assert!(t.claims.len() == others);
+    assert!(t.cache.items.len() == (cown[0] != gone) as usize + (cown[1] != gone) as usize);
+    witness!();
+}
+macro_rules! remove_inst {
+    ($($name:ident = $k:expr),*) => {$(
+        #[cfg_attr(kani, kani::proof, kani::unwind(20))]
+        pub fn $name() {
+            remove_claims_step($k)
+        }
+    )*};
+}
+remove_inst!(c12_remove_claims_k0 = 0, c12_remove_claims_k1 = 1, c12_remove_claims_k2 = 2, c12_remove_claims_k3 = 3);
+
+// ===================================================================================================== C12-H1
+/// set_claims(P, announcement): afterwards the ranges attributed to P are exactly the announced ones (each with expiry
+/// now + peer timeout), the other peer's claims and cached decisions are untouched, and if a claim of P disappeared
+/// every decision cached for P is gone. Pre-state: k claims over owners {P, Q} without duplicate (owner, range) pairs,
+/// one cached decision per owner; announcement of m ranges (duplicates allowed).
+fn set_claims_step(k: usize, m: usize) {
+    let now = any_now();
+    let claim_timeout: u32 = kani::any();
+    let bases: [u8; 3] = kani::any();
+    let prefixes: [u8; 3] = kani::any();
+    let owners: [bool; 3] = kani::any();
+    let abases: [u8; 2] = kani::any();
+    let aprefixes: [u8; 2] = kani::any();
+    // the announcing peer is P (the two peers are interchangeable: the code only compares addresses for equality)
+    let who = false;
+    let keys: [[u8; 16]; 2] = kani::any();
+    let mut t = Tab::new(10, claim_timeout);
+    let mk = |b: u8, p: u8| {
+        let mut d = [0u8; 16];
+        d[0] = b;
+        Range { base: Address { data: d, len: 1 }, prefix_len: p }
+    };
+    let mut exp = [0 as Time; 3];
+    let mut i = 0;
+    while i < k {
+        exp[i] = any_expiry(now);
+        t.claims.push(ClaimEntry { peer: peer(owners[i]), claim: mk(bases[i], prefixes[i]), timeout: exp[i] });
+        // no duplicate (owner, range) pairs in the pre-state
+        let mut j = 0;
+        while j < i {
+            kani::assume(!(owners[j] == owners[i] && bases[j] == bases[i] && prefixes[j] == prefixes[i]));
+            j += 1;
+        }
+        i += 1;
+    }
+    let k0 = addr(&keys[0], 6);
+    let k1 = addr(&keys[1], 6);
+    kani::assume(k0 != k1);
+    let c0 = any_expiry(now);
+    let c1 = any_expiry(now);
+    t.cache.items.push((k0, CacheValue { peer: peer(who), timeout: c0 }));
+    t.cache.items.push((k1, CacheValue { peer: peer(!who), timeout: c1 }));
+    let mut ann: RangeList = smallvec::SmallVec::new();
+    let mut i = 0;
+    while i < m {
+        ann.push(mk(abases[i], aprefixes[i]));
+        i += 1;
+    }
+    let announced = |b: u8, p: u8| {
+        let mut f = false;
+        let mut i = 0;
+        while i < m {
+            if abases[i] == b && aprefixes[i] == p {
+                f = true;
+            }
+            i += 1;
+        }
+        f
+    };
+    t.set_claims(peer(who), ann);
+    let fresh = now + claim_timeout as Time;
+    // all loops below have the concrete bound k + m (the table cannot hold more afterwards)
+    let cap = k + m;
+    let n = t.claims.len();
+    assert!(n <= cap);
+    // (1) every announced range is attributed to the announcing peer, with a fresh expiry
+    let mut i = 0;
+    while i < m {
+        let mut found = false;
+        let mut j = 0;
+        while j < cap {
+            if j < n {
+                let e = &t.claims[j];
+                if e.peer == peer(who) && e.claim.base.data[0] == abases[i] && e.claim.prefix_len == aprefixes[i] && e.timeout == fresh {
+                    found = true;
+                }
+            }
+            j += 1;
+        }
+        assert!(found);
+        i += 1;
+    }
+    // (2) nothing else is attributed to it: dropped claims disappear at once
+    let mut others_after = 0;
+    let mut j = 0;
+    while j < cap {
+        if j < n {
+            let e = &t.claims[j];
+            if e.peer == peer(who) {
+                assert!(announced(e.claim.base.data[0], e.claim.prefix_len));
+            } else {
+                others_after += 1;
+            }
+        }
+        j += 1;
+    }
+    // (3) the other peer's claims are untouched, in order: the i-th pre-entry of the other peer is the i-th
+    //     post-entry of the other peer
+    let mut seen = 0;
+    let mut removed_one = false;
+    let mut i = 0;
+    while i < k {
+        if owners[i] != who {
+            let mut cnt = 0;
+            let mut j = 0;
+            while j < cap {
+                if j < n && t.claims[j].peer == peer(!who) {
+                    if cnt == seen {
+                        let e = &t.claims[j];
+                        assert!(e.timeout == exp[i] && e.claim.base.data[0] == bases[i] && e.claim.prefix_len == prefixes[i]);
+                    }
+                    cnt += 1;
+                }
+                j += 1;
+            }
+            seen += 1;
+        } else if !announced(bases[i], prefixes[i]) {
+            removed_one = true;
+        }
+        i += 1;
+    }
+    assert!(others_after == seen);
+    // (4) decisions cached from the announcing peer go away together with a dropped claim; the other peer's stay
+    let nc = t.cache.items.len();
+    assert!(nc <= 2);
+    let mut has_own = false;
+    let mut has_other = false;
+    let mut j = 0;
+    while j < 2 {
+        if j < nc {
+            if t.cache.items[j].1.peer == peer(who) {
+                has_own = true;
+            } else {
+                has_other = true;
+            }
+        }
+        j += 1;
+    }
+    assert!(has_other);
+    assert!(has_own == !removed_one);
+    vcover!(removed_one, "a_claim_was_dropped");
+    vcover!(m == 1 && k >= 2 && owners[0] == who && owners[1] == who && announced(bases[0], prefixes[0]) && !announced(bases[1], prefixes[1]), "shrink_keeps_first_drops_second");
+    witness!();
+}
+macro_rules! set_inst {
+    ($($name:ident = ($k:expr, $m:expr)),*) => {$(
+        #[cfg_attr(kani, kani::proof, kani::unwind(7))]
+        pub fn $name() {
+            set_claims_step($k, $m)
+        }
+    )*};
+}
+set_inst!(
+    c12_set_claims_k0_m0 = (0, 0), c12_set_claims_k0_m1 = (0, 1), c12_set_claims_k0_m2 = (0, 2),
+    c12_set_claims_k1_m0 = (1, 0), c12_set_claims_k1_m1 = (1, 1), c12_set_claims_k1_m2 = (1, 2),
+    c12_set_claims_k2_m0 = (2, 0), c12_set_claims_k2_m1 = (2, 1), c12_set_claims_k2_m2 = (2, 2),
+    c12_set_claims_k3_m1 = (3, 1), c12_set_claims_k3_m2 = (3, 2)
+);
+
